@@ -456,6 +456,91 @@ async fn bursty(rep: &mut Report, k: u32, rounds: u32) {
     w.client.stop_session_pool_cleanup().await;
 }
 
+
+// ---------------------------------------------------------------------------
+// C12 in a fresh process: the very first sessions a process ever makes, created by overlapping requests on an
+// empty pool (process-wide counters still at their initial values), given back, and then left to the reaper
+
+/// runs in a sub-process (`mon child c12-fresh <k>`); prints CHILD-RESULT {..}
+pub fn child_fresh_burst(k: u32) -> i32 {
+    run::install_panic_monitor();
+    let out = run::rt_block_on(4, async move {
+        let pool = SessionPoolConfig { check_interval: Duration::from_millis(150), idle_timeout: Duration::from_millis(1200), min_idle_sessions: 0 };
+        let Some(w) = build_world(pool).await else { return json!({"error": "cannot build world"}) };
+        let w = Arc::new(w);
+        // burst 1: k overlapping requests, nothing was ever dialled before
+        let mut set = tokio::task::JoinSet::new();
+        for j in 0..k {
+            let w = w.clone();
+            set.spawn(async move { socks_request(&w, 7000 + j).await });
+        }
+        let mut errors = Vec::new();
+        while let Some(x) = set.join_next().await {
+            if let Ok(Err(e)) = x {
+                errors.push(e);
+            }
+        }
+        let dialled_1 = w.relay.accepted.load(Ordering::SeqCst);
+        // burst 2 right away (everything idle is still fresh): served by the sessions of burst 1
+        let mut set = tokio::task::JoinSet::new();
+        for j in 0..k {
+            let w = w.clone();
+            set.spawn(async move { socks_request(&w, 7100 + j).await });
+        }
+        while let Some(x) = set.join_next().await {
+            if let Ok(Err(e)) = x {
+                errors.push(e);
+            }
+        }
+        let dialled_2 = w.relay.accepted.load(Ordering::SeqCst);
+        // then quiet: idle_timeout + several reaper ticks; with min_idle 0 nothing may stay open
+        tokio::time::sleep(Duration::from_millis(3500)).await;
+        let open_after = w.relay.open.load(Ordering::SeqCst);
+        w.client.stop_session_pool_cleanup().await;
+        json!({"k": k, "dialled_after_first_burst": dialled_1, "dialled_after_second_burst": dialled_2, "open_after_quiet_period": open_after, "errors": errors, "panics": run::panic_log()})
+    });
+    println!("CHILD-RESULT {out}");
+    0
+}
+
+pub fn run_c12_fresh_process(ctx: Ctx) -> Report {
+    let quick = ctx.tier == crate::report::Tier::Quick;
+    let mut rep = Report::new("C12");
+    run::case_begin("C12 fresh process");
+    let ks: Vec<u32> = if quick { vec![2, 3] } else { vec![2, 2, 3, 4, 8, 2, 3] };
+    for k in ks {
+        let Some(v) = std::env::current_exe().ok().and_then(|exe| std::process::Command::new(exe).args(["child", "c12-fresh", &k.to_string()]).output().ok()).and_then(|o| String::from_utf8_lossy(&o.stdout).lines().find_map(|l| l.strip_prefix("CHILD-RESULT ").map(|x| x.to_string()))).and_then(|l| serde_json::from_str::<serde_json::Value>(&l).ok()) else {
+            rep.inconclusive("fresh-process child produced no result");
+            continue;
+        };
+        let case = json!({"kind": "c12-fresh-process", "result": v});
+        rep.case(Some(hash_str(&format!("fresh:{k}:{}", rep.evaluations))));
+        if v.get("error").is_some() || v.get("errors").and_then(|e| e.as_array()).is_some_and(|a| !a.is_empty()) {
+            rep.inconclusive(format!("fresh-process burst: {v}"));
+            continue;
+        }
+        rep.add("fresh_process_bursts", 1);
+        let d1 = v["dialled_after_first_burst"].as_u64().unwrap_or(0);
+        let d2 = v["dialled_after_second_burst"].as_u64().unwrap_or(0);
+        let open = v["open_after_quiet_period"].as_u64().unwrap_or(0);
+        if open > 0 {
+            rep.violate("pool", "fresh_process+first_sessions_created_by_overlapping_requests", "surplus_idle_sessions_never_closed", format!("the first {k} overlapping requests of a process dialled {d1} sessions; after everything was given back and idle_timeout (1.2 s) plus 15 reaper ticks had passed with min_idle 0, {open} TLS connection(s) are still open"), case.clone());
+        }
+        if d2 > d1 {
+            rep.violate("pool", "fresh_process+first_sessions_created_by_overlapping_requests", "idle_session_lost_by_the_pool", format!("{k} overlapping requests dialled {d1} sessions and gave them back; {k} more overlapping requests right afterwards needed {} further connection(s)", d2 - d1), case.clone());
+        }
+        if let Some(pl) = v.get("panics").and_then(|x| x.as_array()) {
+            for p in pl.iter().filter_map(|x| x.as_str()) {
+                if !run::is_harness_panic(p) {
+                    rep.violate("pool", "fresh_process", "panic", p.to_string(), case.clone());
+                }
+            }
+        }
+    }
+    run::case_end();
+    rep
+}
+
 /// C12, client level: long-lived streams while reaper ticks pass
 pub async fn live_streams_vs_reaper(rep: &mut Report, n_streams: usize, min_idle: usize, extra_finished: usize) {
     let pool = SessionPoolConfig { check_interval: Duration::from_millis(150), idle_timeout: Duration::from_millis(300), min_idle_sessions: min_idle };
